@@ -212,8 +212,13 @@ func Start(t testing.TB, prop string) *Runner {
 	return r
 }
 
-func (r *Runner) Tier() string      { return r.tier }
-func (r *Runner) Quick() bool       { return r.tier == "quick" }
+func (r *Runner) Tier() string { return r.tier }
+
+// Quick reports whether the quick tier's bounds apply: in the quick tier, and in children of the
+// thorough tier that are started with VERIF_BOUNDS=quick (race-detector builds: the race
+// runtime keeps a few KB per goroutine ever started, so the very large thorough workloads run in
+// a plain build and the race build repeats the quick-size workload with varied GOMAXPROCS).
+func (r *Runner) Quick() bool { return r.tier == "quick" || os.Getenv("VERIF_BOUNDS") == "quick" }
 func (r *Runner) Seed() uint64      { return r.seed }
 func (r *Runner) Shard() (i, n int) { return r.shardI, r.shardN }
 func (r *Runner) OutDir() string    { return r.outDir }
